@@ -390,3 +390,63 @@ def check_strlex(R, drv, tier):
     R.cov.setdefault("bounds", {})["K-strlex"] = (f"{nshape} shapes: quotes ' and \", delimiter lengths {'1,3' if tier == 'quick' else '1,3,5'} (+ even runs), content of at most "
                                                   f"{2 if tier == 'quick' else 3} elements, element forms {FORMS_QUICK if tier == 'quick' else FORMS_ALL}; all characters and hex digits symbolic")
     core.log(f"[K-strlex] {nshape} shapes, {nexits} exits, {nviol} violations in {time.time()-t0:.1f}s")
+
+
+def check_strlex_total(R, drv, tier):
+    """K-strlex-total (C12): the string reader returns (Ok or Err) on EVERY input - no panic exit and no loop beyond the
+    unwinding bound - for all inputs of M characters that start with a quote (every other character an arbitrary Unicode scalar;
+    the input ends after M characters, so running into the end of the source is covered at every position)."""
+    import core
+    import kernels
+    from kchecks import _account
+    t0 = time.time()
+    M = 6 if tier == "quick" else 8
+    try:
+        funcs = kernels.load_parser(r"^(multi_quoted_string::\{closure#0\}|parse_escape_sequence)($|::promoted)")
+        name = "multi_quoted_string::{closure#0}"
+        pats = [(re.compile(rx), fn) for rx, fn in stubs()]
+        nexits = npanic = 0
+        last = None
+        for q in (DQ, SQ):
+            for m in range(1, M + 1):
+                ch = [bv(q)] + [z3.BitVec(f"tot{m}_c{i}", 32) for i in range(1, m)]
+                pre = [scalar(c) for c in ch[1:]]
+                I = Interp(funcs, unwind=3 * m + 8, timeout_s=600 if tier == "quick" else 2400, max_paths=200000)
+                I.stub_patterns = pats
+                I.lazy = False
+                st = State()
+                st.pc = list(pre)
+                st.heap.append(SAgg("closure", "", {0: SInt(bv(q), 32, False), 1: SBool(z3.BoolVal(True))}))
+                st.heap.append(SAgg("inputref", "", {0: Txt(ch, z3.BitVecVal(len(ch), 64), "input"), "pos": 0}))
+                st.frames.append(I.new_frame(name, [SRef(-1, ("cell", 0)), SRef(-1, ("cell", 1))]))
+                I.deadline = time.time() + I.timeout_s
+                I.exits = []
+                I.explore(st)
+                last = I
+                nexits += len(I.exits)
+                for e in I.exits:
+                    if e.kind == "return":
+                        continue
+                    v, model, dt = kernels.check(e.pc, z3.BoolVal(True))
+                    R.q(v, dt)
+                    if v != "sat":
+                        continue
+                    npanic += 1
+                    src = "".join(chr(model.eval(c, model_completion=True).as_long()) for c in ch)
+                    r = drv.req(op="lex", prql=src)
+                    if r.get("crash") or r.get("panic"):
+                        R.violation({"engine": "mirsym", "kernel": "K-strlex-total", "kind": "panic"},
+                                    f"K-strlex-total: lexing the source text {src!r} panics ({e.msg})", {"prql": src, "detail": str(r)[:300]})
+                    else:
+                        R.cov.setdefault("unobservable_models", []).append(["K-strlex-total", src, e.kind, e.msg])
+    except Inconclusive as e:
+        R.engine_error(f"K-strlex-total: {e}")
+        return
+    if last is not None:
+        _account(R, last, "K-strlex-total")
+    R.cov["states"] = R.cov.get("states", 0) + nexits
+    R.q("unsat", 0.0) if npanic == 0 else None
+    R.sample({"kernel": "K-strlex-total", "exits": nexits, "panic_exits": npanic, "property": f"for every input of <= {M} characters that starts with a quote, the string reader "
+              "(multi_quoted_string's closure + parse_escape_sequence) returns Ok or Err: no panic exit is reachable and no loop exceeds 3*len+8 iterations", "wall_s": round(time.time() - t0, 2)})
+    R.cov.setdefault("kernel_bounds", {})["K-strlex-total"] = f"inputs of 1..{M} characters, first one a quote, all others arbitrary Unicode scalars; end of input after the last character"
+    core.log(f"[K-strlex-total] {nexits} exits, {npanic} panic exits in {time.time()-t0:.1f}s")
